@@ -11,6 +11,8 @@ CONSTANTS
   Bundles <- B_One
   Modes = {"persistent"}
   MaxOps = 2
+  BodyOps = 2
+  FinalStep = ""
   Budget = 3
   MaxSteps = 2
   InitOps <- Init_Listen
